@@ -8,6 +8,13 @@ Space  : every unit name x every SI prefix (bare and inside `2 u`, `u^2`,
          <= 2-factor expression over the reduced alphabet; every ordered pair of
          unit names for conversion; pairs of texts that differ only by white
          space, evaluated back to back.
+         Wave 3 - decimal (non-dyadic) powers whose floats do not cancel
+         exactly: every `u^p j u^q` (8 bases x 16 powers squared x 3 joins) bare
+         and inside 4 contexts (`J/mol/..`, `kg ..`, `1/(..)`, `(..)^2`); every
+         `u^p j1 u^q j2 u^r` and `u^p j1 (u^q j2 u^r)` over 8 decimal powers
+         (4 bases in quick, 8 in thorough); and every conversion
+         (source `u^p j u^q`) -> (target `u^r`) there and back, r ranging over
+         every exactly reachable sum/difference p+q, p-q of the 8 powers.
 Oracle : models/unitsref.py (own table, own parser, Fraction exponents).
 """
 import itertools
@@ -27,26 +34,57 @@ RED_POWERS = ['', '^2', '^-1', '^0.5']
 JOIN = [' * ', '/', ' ']
 EDIT_TOKENS = ['(', ')', '^', '*', '/', '-', '.', 'm', 'kJ', '2', '-1', 'foo',
                'nan', 'inf']
+# wave 3: powers written as decimals.  Apart from 0.5, 1 and 2 none of them is a
+# binary fraction, so sums and differences of their floats miss the exact
+# (Fraction) result by an ulp or so: 0.3-0.1-0.2 = -2.8e-17, 1.4-0.4 =
+# 0.9999999999999999, 0.1+0.2 = 0.30000000000000004.
+FRAC_BASES = ['m', 's', 'K', 'mol', 'cm', 'km', 'kJ', '(J/mol)']
+FRAC_POWERS = ['0.1', '0.2', '0.3', '0.4', '0.6', '0.7', '0.9', '1.1', '1.4',
+               '1.9', '2.3', '-0.3', '-1.7', '0.5', '1', '2']
+FRAC_RED_POWERS = ['0.1', '0.2', '0.3', '0.4', '0.7', '1.4', '2.3', '-0.3']
+FRAC_CONTEXTS = ['%s', 'J/mol/%s', 'kg %s', '1/(%s)', '(%s)^2']
+FRAC3_BASES = {'quick': 4, 'thorough': len(FRAC_BASES)}
+FRAC_CONV_BASES = {'quick': ['m', 'mol', 'cm', 'kJ'], 'thorough': FRAC_BASES}
 BOUND = {'quick': 'names x prefixes: all; <=2 factors over %d bases x %d powers; '
                   '3 factors over %d bases x %d powers; one-token edits of all '
                   '<=2-factor reduced expressions; all ordered name pairs' % (
                       len(NUMBERS) + len(ur.TABLE) + len(PREFIXED) + 2,
-                      len(POWERS), len(RED_BASES), len(RED_POWERS)),
+                      len(POWERS), len(RED_BASES), len(RED_POWERS)) +
+                  '; decimal powers: u^p j u^q over %d bases x %d^2 powers x 3 '
+                  'joins x %d contexts; u^p j u^q j u^r flat and right-nested '
+                  'over %d bases x %d^3 powers x 9 joins; conversions '
+                  '(u^p j u^q) <-> u^r over %d bases x %d^2 x 3 sources x every '
+                  'reachable exponent r' % (
+                      len(FRAC_BASES), len(FRAC_POWERS), len(FRAC_CONTEXTS),
+                      FRAC3_BASES['quick'], len(FRAC_RED_POWERS),
+                      len(FRAC_CONV_BASES['quick']), len(FRAC_RED_POWERS)),
          'thorough': 'as quick, plus 3 factors over the reduced bases with all '
                      '7 powers, and all two-token edits of 1-factor and '
-                     'one-token edits of 3-factor reduced expressions'}
+                     'one-token edits of 3-factor reduced expressions; the '
+                     'decimal-power triples and conversions over all %d '
+                     'decimal-power bases' % len(FRAC_BASES)}
 RULE = ('the whole language over the stated factor alphabet up to the size '
         'bound is generated; each text is evaluated by eval_qty and by the '
         'reference evaluator; non-trivial = the text contains a prefix, a '
         'power, a parenthesis, a customary unit or is a malformed variant the '
         'reference rejects; texts whose value the statement leaves open '
         '(fractional power of a negative number, division by zero) are counted '
-        'but not judged')
+        'but not judged; decimal-power families: every combination of the '
+        'stated bases, decimal powers, joins and contexts is generated, the '
+        'expected exponents are exact Fractions of the decimal texts (so '
+        '0.3-0.1-0.2 is exactly 0 and 1.4-0.4 exactly 1); a conversion case is '
+        'one (source expression, target u^r) pair, compatible iff the exact '
+        'exponents are equal; sources the reference finds dimensionless are '
+        'counted but not converted (with_units returns a plain number)')
 ASSUMPTIONS = ['magnitudes compared to 1e-6 relative (CODATA vintage of eV, u, '
                'molecule differs by < 1e-7; a wrong prefix or definition is off '
                'by >= 7e-4)', 'BTU is the thermochemical BTU',
                'name resolution: exact name, one-letter prefix, then da '
-               '(documented in db.py)']
+               '(documented in db.py)',
+               'a power written as a decimal denotes that decimal exactly '
+               '(0.3 = 3/10), so exponents that cancel on paper cancel in the '
+               'result; observed exponents are compared to 1e-9 and the '
+               'dimensionless/compatible decision must be the exact one']
 MANIFEST = dict(
     technique='bounded-exhaustive enumeration of the unit-expression language '
               '(plus all one-token deviations) vs an exact reference evaluator',
@@ -55,7 +93,11 @@ MANIFEST = dict(
          'over a reduced one, every one-token deletion/insertion/substitution '
          'of the small expressions, and every ordered pair of names for '
          'conversion are evaluated by the implementation and by an independent '
-         'evaluator with exact Fraction exponents.',
+         'evaluator with exact Fraction exponents. Products and quotients of '
+         'up to three decimal (non-binary) powers of one unit, bare and inside '
+         'compound units, must have the exactly cancelled dimension, and every '
+         'such two-factor expression is converted to every single power u^r '
+         'it could equal and back.',
     note='Expressions deeper than the bound, e/E exponents and division by a '
          'literal zero are not judged.',
     ref='5/C10')
@@ -340,8 +382,175 @@ def run_spacing(R):
     R.sample(dict(spacing_pair=list(pairs[0])), limit=1)
 
 
+# ---------------------------------------------- wave 3: decimal powers
+
+def frac_factor(u, p):
+    return u if p == '1' else u + '^' + p
+
+
+def run_frac2(R, bi):
+    """u^p j u^q for every ordered pair of decimal powers, every join, bare
+    and inside every context."""
+    u = FRAC_BASES[bi]
+    for p in FRAC_POWERS:
+        for q in FRAC_POWERS:
+            for j in JOIN:
+                core = frac_factor(u, p) + j + frac_factor(u, q)
+                for ctx in FRAC_CONTEXTS:
+                    record(R, 'frac2', ctx % core)
+        R.sample(dict(text=FRAC_CONTEXTS[1] % (frac_factor(u, p) + ' ' +
+                                               frac_factor(u, '0.9'))), limit=1)
+
+
+def run_frac3(R, bi, pi):
+    """u^p j1 u^q j2 u^r (left-associative) and u^p j1 (u^q j2 u^r)."""
+    u = FRAC_BASES[bi]
+    p = FRAC_RED_POWERS[pi]
+    a = frac_factor(u, p)
+    for q in FRAC_RED_POWERS:
+        b = frac_factor(u, q)
+        for r in FRAC_RED_POWERS:
+            c = frac_factor(u, r)
+            for j1 in JOIN:
+                for j2 in JOIN:
+                    record(R, 'frac3', a + j1 + b + j2 + c)
+                    record(R, 'frac3', a + j1 + '(' + b + j2 + c + ')')
+    R.sample(dict(text=a + '/' + b + '/' + c), limit=1)
+
+
+def _dec(text):
+    from fractions import Fraction
+    return Fraction(text)
+
+
+def frac_targets(u):
+    """u^r for every r = p+q or p-q (exact) over the reduced decimal powers,
+    written as a decimal with one digit; r = 1 is the bare unit; r = 0 has no
+    target (the source is a pure number)."""
+    rs = set()
+    for p in FRAC_RED_POWERS:
+        for q in FRAC_RED_POWERS:
+            rs.add(_dec(p) + _dec(q))
+            rs.add(_dec(p) - _dec(q))
+    out = []
+    for r in sorted(rs):
+        if r == 0:
+            continue
+        tenths = r * 10
+        assert tenths.denominator == 1
+        n = abs(int(tenths))
+        if n % 10 == 0:
+            txt = '%s%d' % ('-' if r < 0 else '', n // 10)
+        else:
+            txt = '%s%d.%d' % ('-' if r < 0 else '', n // 10, n % 10)
+        out.append(frac_factor(u, txt))
+    return out
+
+
+_REF_CACHE = {}
+
+
+def ref_cached(text):
+    if text not in _REF_CACHE:
+        _REF_CACHE[text] = ur.evaluate(text)
+    return _REF_CACHE[text]
+
+
+def conv_case(a, b, x=3.25):
+    """Convert x `a` to `b` (and back).  -> (outcome label, None | (key, msg))"""
+    from pgradd.Units import in_units, to_SI_from, from_SI_to, with_units
+    from pgradd.Error import UnitsError
+    ma, ea = ref_cached(a)
+    mb, eb = ref_cached(b)
+    if all(e == 0 for e in ea):
+        return 'source-dimensionless(not converted)', None
+    try:
+        q = with_units(x, a)
+        v = q.in_units(b)
+        v2 = in_units(q, b)
+        got = 'val'
+    except UnitsError:
+        got = 'UnitsError'
+    except Exception as e:   # noqa
+        got = 'EXC:' + type(e).__name__
+    if ea != eb:
+        if got != 'UnitsError':
+            return 'incompatible:' + got, (
+                'fracconv:incompatible-not-rejected',
+                'converting %r (exponents %s) to %r (exponents %s): %s' % (
+                    a, tuple(map(float, ea)), b, tuple(map(float, eb)), got))
+        return 'incompatible:' + got, None
+    if got != 'val':
+        return 'compatible:' + got, (
+            'fracconv:compatible-' + got,
+            'converting %r to %r (both exactly %s) raised %s' % (
+                a, b, tuple(map(float, ea)), got))
+    want = x * ma / mb
+    bad = None
+    if isinstance(v, bool) or not isinstance(v, (int, float)):
+        bad = 'result is a %s, not a plain number' % type(v).__name__
+    elif abs(v - want) > 1e-6 * abs(want) or v != v2:
+        bad = '%r %s = %r %s, expected %r' % (x, a, v, b, want)
+    else:
+        try:
+            back = with_units(v, b).in_units(a)
+        except Exception as e:   # noqa
+            return 'compatible:back-' + type(e).__name__, (
+                'fracconv:compatible-back-' + type(e).__name__,
+                '%r %s converts to %r %s, but converting that back raised %s'
+                % (x, a, v, b, type(e).__name__))
+        if isinstance(back, bool) or not isinstance(back, (int, float)):
+            bad = 'there and back gives a %s' % type(back).__name__
+        elif abs(back - x) > 1e-12 * x:
+            bad = 'there and back (%s -> %s -> %s) gives %r for %r' % (
+                a, b, a, back, x)
+        else:
+            si = to_SI_from(x, a)
+            if abs(si - x * ma) > 1e-6 * abs(x * ma):
+                bad = 'to_SI_from(%r, %r) = %r, expected %r' % (x, a, si, x * ma)
+            elif abs(from_SI_to(si, a) - x) > 1e-12 * x:
+                bad = 'from_SI_to(to_SI_from(x), %r) = %r' % (
+                    a, from_SI_to(si, a))
+    if bad:
+        return 'compatible:wrong-value', ('fracconv:wrong-value', bad)
+    return 'compatible:val', None
+
+
+def run_fracconv(R, tier, bi, pi):
+    u = FRAC_CONV_BASES[tier][bi]
+    p = FRAC_RED_POWERS[pi]
+    targets = frac_targets(u)
+    for q in FRAC_RED_POWERS:
+        for j in JOIN:
+            a = frac_factor(u, p) + j + frac_factor(u, q)
+            n_ok = 0
+            for b in targets:
+                label, viol = conv_case(a, b)
+                R.evals += 1
+                R.nontrivial += 1
+                R.outcomes['fracconv:' + label] += 1
+                n_ok += label == 'compatible:val'
+                if viol:
+                    R.violation(viol[0], viol[1],
+                                dict(kind='exprconv', a=a, b=b))
+            # every non-dimensionless source has exactly one target it equals
+            if not all(e == 0 for e in ref_cached(a)[1]):
+                assert sum(ref_cached(b)[1] == ref_cached(a)[1]
+                           for b in targets) == 1, (a, targets)
+        R.sample(dict(convert='3.25 %s -> each of %d targets %s .. %s' % (
+            a, len(targets), targets[0], targets[-1])), limit=1)
+
+
 def shards(tier, seed):
     out = [('names',), ('conv',), ('spacing',)]
+    for bi in range(len(FRAC_BASES)):
+        out.append(('frac2', bi))
+    for bi in range(FRAC3_BASES[tier]):
+        for pi in range(len(FRAC_RED_POWERS)):
+            out.append(('frac3', bi, pi))
+    for bi in range(len(FRAC_CONV_BASES[tier])):
+        for pi in range(len(FRAC_RED_POWERS)):
+            out.append(('fracconv', bi, pi))
     for i in range(32):
         out.append(('pairs', i, 32))
     for i in range(24):
@@ -360,6 +569,12 @@ def run_shard(shard, tier):
         run_conversions(R)
     elif k == 'spacing':
         run_spacing(R)
+    elif k == 'frac2':
+        run_frac2(R, shard[1])
+    elif k == 'frac3':
+        run_frac3(R, shard[1], shard[2])
+    elif k == 'fracconv':
+        run_fracconv(R, tier, shard[1], shard[2])
     elif k == 'pairs':
         run_pairs_full(R, shard[1], shard[2])
     elif k == 'triples':
@@ -375,6 +590,10 @@ def replay(w):
         return dict(violates=cls not in ('ok', 'open'),
                     detail='impl=%r ref=%r %s' % (impl_eval(w['text']),
                                                   ref_eval(w['text']), msg))
+    if w['kind'] == 'exprconv':
+        label, viol = conv_case(w['a'], w['b'])
+        return dict(violates=viol is not None,
+                    detail='%s %s' % (label, viol[1] if viol else 'holds'))
     R = Result()
     run_conversions(R)
     hit = [v for v in R.violations if v['witness'].get('a') == w['a'] and
